@@ -545,7 +545,7 @@ func inList(s string, l []string) bool {
 func ruleR05f(h *H) {
 	const rule = "R05f"
 	h.Rule(rule, "K5", "every insertion into the response map returned by the fencing quorum is guarded by membership of the responder in the ensemble", 2)
-	fn := h.fn(rule, "coordinator/controllers", "shardController", "newTermQuorum")
+	fn := fencingQuorumFn(h, rule)
 	if fn == nil {
 		return
 	}
@@ -598,7 +598,7 @@ func sameServer(a, b ssa.Value) bool {
 func ruleR05h(h *H) {
 	const rule = "R05h"
 	h.Rule(rule, "K6", "the majority is computed from the length of the very collection that is iterated to send NewTerm (the set that is fenced and whose answers are counted)", 1)
-	fn := h.fn(rule, "coordinator/controllers", "shardController", "newTermQuorum")
+	fn := fencingQuorumFn(h, rule)
 	if fn == nil {
 		return
 	}
